@@ -6,9 +6,20 @@ package main
 var properties = map[string]*property{}
 
 func init() {
+	properties["C07"] = &property{
+		ID: "C07", Level: "model_checking", Kinds: []string{"pos"},
+		Harnesses: visitHarnesses(map[string]int{"K": 3, "B": 2, "strlen": 8, "paths": 1000, "wall_s": 25}, map[string]int{"K": 4, "B": 2, "strlen": 8, "paths": 30000, "wall_s": 600}),
+		Assumptions: []string{"as C01; diagnostics are observed in the checker's warning buffer; message formatting (go/printer) is an event stub checked for format/argument consistency"},
+	}
+	properties["C05"] = &property{
+		ID: "C05", Level: "model_checking", Kinds: []string{"write"},
+		Harnesses: append(visitHarnesses(map[string]int{"K": 3, "B": 2, "strlen": 8, "paths": 1000, "wall_s": 25}, map[string]int{"K": 4, "B": 2, "strlen": 8, "paths": 30000, "wall_s": 600}),
+			harness{Name: "gsxC18FailurePolicy", Pkg: "checkers", Quick: map[string]int{"strlen": 16}, NoValidate: true}),
+		Assumptions: []string{"as C01; write monitor on every cell of the lazily created syntax tree, the types.Info tables and the registered parameter values"},
+	}
 	properties["C01"] = &property{
-		ID: "C01", Level: "model_checking",
-		Harnesses: visitHarnesses(map[string]int{"K": 3, "B": 2, "strlen": 8, "paths": 1000}, map[string]int{"K": 4, "B": 2, "strlen": 8, "paths": 30000}),
+		ID: "C01", Level: "model_checking", Kinds: []string{"panic"},
+		Harnesses: visitHarnesses(map[string]int{"K": 3, "B": 2, "strlen": 8, "paths": 1000, "wall_s": 25}, map[string]int{"K": 4, "B": 2, "strlen": 8, "paths": 30000, "wall_s": 600}),
 	}
 	properties["C06"] = &property{
 		ID: "C06", Level: "model_checking",
@@ -85,8 +96,8 @@ func visitHarnesses(quick, thorough map[string]int) []harness {
 	var hs []harness
 	for _, n := range names {
 		hs = append(hs, harness{Name: "gsxVisit_" + n, Pkg: "checkers", Quick: quick, Thorough: thorough, NoValidate: true, Tolerant: true, ReplayFn: replayVisit(n)})
-		wq := map[string]int{"K": 2, "B": 1, "strlen": 8, "paths": 300}
-		wt := map[string]int{"K": 3, "B": 2, "strlen": 8, "paths": 10000}
+		wq := map[string]int{"K": 2, "B": 2, "strlen": 8, "paths": 400, "wall_s": 15}
+		wt := map[string]int{"K": 3, "B": 2, "strlen": 8, "paths": 10000, "wall_s": 300}
 		hs = append(hs, harness{Name: "gsxWalk_" + n, Pkg: "checkers", Quick: wq, Thorough: wt, NoValidate: true, Tolerant: true, ReplayFn: replayVisit(n)})
 	}
 	return hs
